@@ -474,6 +474,18 @@ def coerce_arg(I, v, ty, node, what):
             return None
         if ty[0] == 'rec':
             if v.kind == 'rec':
+                declared = [ty[1]] if isinstance(ty[1], str) else list(ty[1])
+                actual = (v.extra or {}).get('classes') or []
+
+                def fits(c):
+                    ci = I.world.find_class(c)
+                    return any(c == d_ or (ci is not None and I.world.class_is_subclass(ci, d_)) for d_ in declared)
+                if actual and not all(fits(c) for c in actual):
+                    # a union-typed value: accepted when the path condition (an isinstance test, a class-dispatched
+                    # call) already confines it to the declared classes
+                    inside = [TY.cls_of(v.t) == TY.class_id(c) for c in actual if fits(c)]
+                    if not inside or I.path._feasible(z3.Not(z3.Or(*inside))):
+                        return None
                 return v
             return None
         if ty[0] == 'list':
@@ -546,6 +558,15 @@ def apply_contract(I, con, args, kwargs, node, clo=None, constructing=None, resu
                 ok = False
                 break
             coerced[pname] = cv
+        if ok and vname and con.variants[vname].get('select'):
+            # variants that differ by a condition on the arguments rather than by their kinds (e.g. the class of a
+            # field): chosen when the condition holds on this path (forks when the path leaves it open)
+            sfv = Frame(parent=Frame(module='__spec__'))
+            sfv.module = '__spec__'
+            sfv.vars.update(coerced)
+            sel = eval_spec(I, con.variants[vname]['select'], sfv, f"{callee} select[{vname}]")
+            if not I.path.decide(sel):
+                ok = False
         if ok:
             chosen = (vname, params, requires, ensures, raises, may_raise, returns, coerced)
             break
